@@ -176,6 +176,9 @@ func attrNames(attrs []schema.Attr) []string {
 		case *schema.Charset, *schema.Collation, *schema.Check, *schema.Pos:
 			continue
 		}
+		if nd, ok := a.(*postgres.IndexNullsDistinct); ok && nd.V {
+			continue // NULLS DISTINCT is the default: spelled out or not, the same index
+		}
 		n := fmt.Sprintf("%T", a)
 		switch v := a.(type) {
 		case *schema.Comment:
@@ -402,6 +405,35 @@ func evalState(c Case) (problems []string, skipped string) {
 		bad("second MarshalHCL: %v", err)
 	} else if string(hcl2) != string(hcl) {
 		bad("marshalling the evaluated schema again changes the bytes:\n%s", lineDiff(strings.Split(string(hcl), "\n"), strings.Split(string(hcl2), "\n")))
+	}
+	// the same through the realm (what the CLI marshals): references between tables are qualified there.
+	rs := build()
+	rhcl, err := cd.marshal(rs.Realm)
+	if err != nil {
+		bad("MarshalHCL of the realm: %v", err)
+		return
+	}
+	var rback schema.Realm
+	if err := cd.eval(rhcl, &rback, nil); err != nil {
+		bad("HCL exported from the realm does not evaluate: %v\n%s", err, rhcl)
+		return
+	}
+	for dir := 0; dir < 2; dir++ {
+		a, b := build().Realm, &rback
+		if dir == 1 {
+			a, b = b, a
+		}
+		cs, err := cd.d.Diff.RealmDiff(a, b, schema.DiffNormalized())
+		if err != nil {
+			bad("realm diff (direction %d): %v", dir, err)
+		} else if len(cs) > 0 {
+			bad("diff between the realm and its HCL round trip (direction %d) is not empty: %v", dir, dfu.Flatten(cs))
+		}
+	}
+	if rhcl2, err := cd.marshal(&rback); err != nil {
+		bad("second MarshalHCL of the realm: %v", err)
+	} else if string(rhcl2) != string(rhcl) {
+		bad("marshalling the evaluated realm again changes the bytes:\n%s", lineDiff(strings.Split(string(rhcl), "\n"), strings.Split(string(rhcl2), "\n")))
 	}
 	return
 }
